@@ -54,14 +54,17 @@ ResOf(j) ==
 \* register 1: sequence of deviations; register 2: [checked, skipped, panics] counters;
 \* register 3: number of events consumed; register 4: positions of out-of-domain (skipped) events
 Note(ev, fails) ==
-  LET real == fails \ {Skip}
+  LET real == { f \in fails : f[1] # "skip" /\ f[1] # "undecided" }
+      und == { f \in fails : f[1] = "undecided" }
       devs == { [l |-> l, seq |-> ev.seq, op |-> ev.op, sp |-> ev.sp, cfg |-> ev.cfg,
                  prop |-> f[1], clause |-> f[2]] : f \in real }
       st == TLCGet(2)
   IN /\ (IF devs = {} THEN TRUE ELSE TLCSet(1, TLCGet(1) \o SetToSeq(devs)))
      /\ TLCSet(2, [checked |-> st.checked + (IF Skip \in fails THEN 0 ELSE 1),
                    skipped |-> st.skipped + (IF Skip \in fails THEN 1 ELSE 0),
-                   nontrivial |-> st.nontrivial + (IF Skip \notin fails /\ ev.fam # "load" THEN 1 ELSE 0)])
+                   nontrivial |-> st.nontrivial + (IF Skip \notin fails /\ ev.fam # "load" THEN 1 ELSE 0),
+                   undecided |-> st.undecided + (IF und = {} THEN 0 ELSE 1)])
+     /\ (IF und = {} THEN TRUE ELSE TLCSet(5, Append(TLCGet(5), [l |-> l, op |-> ev.op, what |-> (CHOOSE f \in und : TRUE)[2]])))
      /\ (IF Skip \in fails THEN TLCSet(4, Append(TLCGet(4), l)) ELSE TRUE)
      /\ TLCSet(3, l)
 
@@ -84,9 +87,10 @@ TrCall == /\ l <= Len(Rec) /\ Rec[l].fam # "ctl" /\ l' = l + 1
 TraceInit == /\ l = 1
              /\ MInit
              /\ TLCSet(1, <<>>)
-             /\ TLCSet(2, [checked |-> 0, skipped |-> 0, nontrivial |-> 0])
+             /\ TLCSet(2, [checked |-> 0, skipped |-> 0, nontrivial |-> 0, undecided |-> 0])
              /\ TLCSet(3, 0)
              /\ TLCSet(4, <<>>)
+             /\ TLCSet(5, <<>>)
 TraceNext == TrGroup \/ TrCall
 TraceSpec == TraceInit /\ [][TraceNext]_tvars
 
@@ -99,7 +103,7 @@ TraceTypeOK == /\ l \in 1..(Len(Rec) + 1)
 TraceAccepted ==
   LET consumed == TLCGet(3)
       res == [events |-> Len(Rec), consumed |-> consumed, devs |-> TLCGet(1), stats |-> TLCGet(2),
-              skipped_lines |-> TLCGet(4)]
+              skipped_lines |-> TLCGet(4), undecided |-> TLCGet(5)]
   IN /\ JsonSerialize(OutFile, res)
      /\ (consumed = Len(Rec) \/ PrintT(<<"TRACE NOT CONSUMED", consumed, Len(Rec)>>))
      /\ consumed = Len(Rec)
